@@ -382,3 +382,35 @@ Proof. apply (bucket_quantile_perm Qc qcops pinf ninf qc_lt_irr qc_lt_trans qc_l
 Theorem hist_step_order_independent (pinf ninf : Qc) nout idx q vec vec' : Permutation vec vec' ->
   hist_step Qc qcops pinf ninf nout idx q vec = hist_step Qc qcops pinf ninf nout idx q vec'.
 Proof. apply (hist_step_perm Qc qcops pinf ninf qc_lt_irr qc_lt_trans qc_lt_tot qc_eqb_eq qc_add_comm qc_add_assoc). Qed.
+
+(* ---- the operator's step vectors are well formed (C18): every output series at most once, IDs index
+   the output series list -------------------------------------------------------------------------- *)
+Lemma hist_step_ids (V : Type) (o : ops V) (pinf ninf : V) nout idx q vec :
+  NoDup (map fst (hist_step V o pinf ninf nout idx q vec)) /\
+  forall e, In e (hist_step V o pinf ninf nout idx q vec) -> (fst e < nout)%nat.
+Proof.
+  unfold hist_step.
+  assert (G : forall l, NoDup l ->
+            NoDup (map fst (flat_map (fun g => match step_buckets V idx g vec with
+                                               | [] => []
+                                               | [_] => [(g, nanv o)]
+                                               | bs => [(g, match q with Some qv => bucket_quantile V o pinf ninf qv bs | None => nanv o end)]
+                                               end) l)) /\
+            forall e, In e (flat_map (fun g => match step_buckets V idx g vec with
+                                               | [] => []
+                                               | [_] => [(g, nanv o)]
+                                               | bs => [(g, match q with Some qv => bucket_quantile V o pinf ninf qv bs | None => nanv o end)]
+                                               end) l) -> In (fst e) l).
+  { induction l as [|g l IH]; intros Hnd; simpl; [split; [constructor|intros e []]|].
+    inversion Hnd as [|? ? Hn Hnd']; subst. destruct (IH Hnd') as [IH1 IH2].
+    destruct (step_buckets V idx g vec) as [|b1 [|b2 bs]]; simpl.
+    - split; [exact IH1|]. intros e He. right. apply IH2. exact He.
+    - split.
+      + constructor; [|exact IH1]. intros Hin. apply in_map_iff in Hin. destruct Hin as [e [Ee He]]. apply IH2 in He. rewrite Ee in He. contradiction.
+      + intros e [<-|He]; [left; reflexivity|right; apply IH2; exact He].
+    - split.
+      + constructor; [|exact IH1]. intros Hin. apply in_map_iff in Hin. destruct Hin as [e [Ee He]]. apply IH2 in He. rewrite Ee in He. contradiction.
+      + intros e [<-|He]; [left; reflexivity|right; apply IH2; exact He]. }
+  destruct (G (seq 0 nout) (seq_NoDup nout 0)) as [G1 G2]. split; [exact G1|].
+  intros e He. apply G2 in He. apply in_seq in He. lia.
+Qed.
